@@ -175,6 +175,65 @@ mod verif_c03 {
         }
     }
 
+    /// from_utf8 replaced by its specification RESTRICTED to byte strings over ASCII u {0xFF} (0xFF never occurs in
+    /// UTF-8, so such a string is valid iff it has no 0xFF): lets the str contract be checked for LONG strings, where
+    /// running std's validator symbolically is out of CBMC's reach. Trusted: std's from_utf8 meets that specification.
+    fn from_utf8_model(v: &[u8]) -> core::result::Result<&str, core::str::Utf8Error> {
+        let mut i = 0;
+        while i < v.len() {
+            if v[i] >= 0x80 {
+                let mut bad = [0xFFu8];
+                return Err(core::str::from_utf8_mut(&mut bad).unwrap_err());
+            }
+            i += 1;
+        }
+        Ok(unsafe { core::str::from_utf8_unchecked(v) })
+    }
+
+    /// str, long form: length prefix < 128 (one byte), body up to 99 bytes over ASCII u {0xFF}, any tail.
+    /// Ok iff the body fits and is valid; value is exactly the body, in place; remainder is what follows; error kinds.
+    #[kani::proof]
+    #[kani::stub(core::str::from_utf8, from_utf8_model)]
+    #[kani::unwind(101)]
+    fn dec_str_long() {
+        const L: usize = 100;
+        let b: [u8; L] = kani::any();
+        let l: usize = kani::any();
+        kani::assume(l <= L);
+        kani::assume(b[0] < 0x80);
+        let mut i = 1;
+        while i < L {
+            kani::assume(b[i] < 0x80 || b[i] == 0xFF);
+            i += 1;
+        }
+        let inp = &b[..l];
+        let n = b[0] as usize;
+        let fits = l >= 1 && n <= l - 1;
+        let mut valid = true;
+        if fits {
+            let mut k = 0;
+            while k < n {
+                if inp[1 + k] == 0xFF { valid = false; }
+                k += 1;
+            }
+        }
+        match take_from_bytes::<&str>(inp) {
+            Ok((v, rest)) => {
+                assert!(fits, "SPEC: accepted a string longer than the input");
+                assert!(valid, "SPEC: accepted invalid UTF-8");
+                assert!(v.len() == n && v.as_ptr() == inp[1..].as_ptr(), "SPEC: borrowed str must be the n bytes after the length");
+                assert!(rest.len() == l - 1 - n && (rest.is_empty() || rest.as_ptr() == inp[1 + n..].as_ptr()), "SPEC: remainder is what follows the string");
+            }
+            Err(e) => {
+                if !fits { same_err(&e, Error::DeserializeUnexpectedEnd) }
+                else {
+                    assert!(!valid, "SPEC: rejected a valid string");
+                    same_err(&e, Error::DeserializeBadUtf8)
+                }
+            }
+        }
+    }
+
     /// char: a string holding exactly ONE unicode scalar value (1..=4 UTF-8 bytes). Every byte string of <= 6 bytes whose
     /// length prefix is a single byte (multi-byte length prefixes claim >= 128 bytes and share the varint path of dec_bytes).
     #[kani::proof]
